@@ -109,10 +109,10 @@ PROPS["C16"] = dict(
     design_ref="DESIGN.md section 5, C16",
     technique="contract-based verification with Kani/CBMC: loop-free harnesses over a fully symbolic `char` on the real pest::unicode functions (complete over all 1,112,064 scalar values)",
     level_text="Complete proof over the finite domain of all Unicode scalar values: each clause (exactly one two-letter general category; each grouped category equals the union of its members; scripts pairwise disjoint) is one loop-free CBMC query with a symbolic char through the real ucd_trie lookup on the real generated tables. Quick tier: partition + 8 unions; thorough adds the 163-script disjointness harness.",
-    level_note="Trusted: Kani 0.68/CBMC/CaDiCaL; the grouping table (UAX#44) in vx/gen_unicode.py is the specification. Not covered: by_name/VM/generator/validator name dispatch (string tables, Box<dyn Fn>) - the name clause of C16 is NOT decided.",
+    level_note="Trusted: Kani 0.68/CBMC/CaDiCaL; the grouping table (UAX#44) in vx/gen_unicode.py is the specification. Name clause (by_name resolves every advertised name and agrees with the function): exhaustive native enumeration as a labelled stand-in, not a proof; VM/generator/validator dispatch not covered.",
     assumptions=["Kani 0.68 / CBMC 6.11 / CaDiCaL are sound on loop-free code; rustc MIR semantics as modelled by Kani",
                  "the member lists of the eight grouped categories are taken from UAX #44 (specification side), written in vx/gen_unicode.py"],
-    not_covered=["name clause: unicode::by_name (to_uppercase + Box<dyn Fn>), the VM's and the generator's built-in dispatch and the validator's BUILTINS table are string tables outside both tools' reach here; not decided",
+    not_covered=["name clause: not provable deductively here (a Kani harness for a name deep in the BY_NAME tables did not finish in 15 min). Stand-in: exhaustive native enumeration of every advertised name x every scalar value through unicode::by_name and unicode_property_names on the real code (reported under bounded_checks, never counted as discharged). The VM's / generator's dispatch and the validator's BUILTINS table are not covered",
                  "script disjointness runs in the thorough tier only (about 4 minutes)"],
 )
 
